@@ -144,6 +144,7 @@ def _run(chk: Check, tier: str, work):
     # ---- C: judge
     t1 = time.time()
     judge_exec(chk, jcases, frecs)
+    loop_head_programs(chk)
     timing["judge_exec_with_e1_s"] = round(time.time() - t1, 1)
 
     # ---- negative controls
@@ -262,6 +263,37 @@ def judge_exec(chk: Check, jcases, frecs, require_classes: bool = True) -> None:
         if not classes.get(need):
             raise MachineryError(f"no jump program of class {need} was executed")
     chk.sample({"part": "C", "classes": dict(classes)})
+
+
+def loop_head_programs(chk: Check) -> None:
+    """Backward jumps to a genuine JUMPDEST at pc 0..3 (a loop head at the very beginning of the code), taken by
+    JUMP, by JUMPI with a literally true condition and by JUMPI whose symbolic condition follows from the path."""
+    from harness.asm import assemble
+
+    from .c01 import judge
+
+    items = []
+    for h in range(4):
+        for flavour in ("jump", "jumpi-true", "jumpi-implied"):
+            body = [("RAW", bytes([0x5B] * (h + 1)))]  # JUMPDESTs at 0..h; the loop head is pc h
+            body += [("PUSH", 0), "MLOAD", ("PUSHL", "exit"), "JUMPI", ("PUSH", 1), ("PUSH", 0), "MSTORE"]
+            if flavour == "jump":
+                body += [("PUSH", h), "JUMP"]
+            elif flavour == "jumpi-true":
+                body += [("PUSH", 1), ("PUSH", h), "JUMPI"]
+            else:
+                # only inputs x > 5 get here; then `x > 3` is symbolic but certainly true
+                body += [("PUSH", 5), ("PUSH", 0), "CALLDATALOAD", "GT", ("PUSHL", "go"), "JUMPI", ("PUSH", 0xEE), ("PUSH", 32), "MSTORE", ("PUSH", 64), ("PUSH", 0), "RETURN",
+                         ("LABEL", "go"), ("PUSH", 3), ("PUSH", 0), "CALLDATALOAD", "GT", ("PUSH", h), "JUMPI"]
+            body += ["INVALID", ("LABEL", "exit"), ("PUSH", 0xC1), ("PUSH", 32), "MSTORE", ("PUSH", 64), ("PUSH", 0), "RETURN"]
+            prog = Prog(accounts={TARGET: assemble(body)}, calldata=[Sym("x", 256)], name=f"c19-loophead-{flavour}")
+            items.append(Item(prog, [{"x": 0}, {"x": 6}, {"x": 1 << 255}], key=f"loophead:{flavour}:pc{h}"))
+    outs = run_items(items, chk, witnesses=False)
+    judge(chk, outs)
+    for o in outs:
+        if not o.covered and not o.flagged and not o.skipped and not o.match.unevaluable:
+            chk.violation(f"{o.item.key}:uncovered", f"no reported path covers input {o.inp} of {o.item.key}", describe(o))
+    chk.cov["loop_head_programs"] = len(items)
 
 
 # ---------------------------------------------------------------------------------------------
